@@ -91,7 +91,9 @@ def run_enum(model, cfg=None, mon_spec=None, max_solutions=20000, stop_after=Non
     hub, mons = _attach(model, mon_spec)
     solver = None
     try:
-        solver = M.build_solver(model, cfg, **(solver_kw or {}))
+        kw2 = dict(solver_kw or {})
+        pobj = kw2.pop("problem_obj", None)
+        solver = M.build_solver(model, cfg, problem=pobj, **kw2)
         for mk in ("stats", "branch", "schedule"):
             if mk in mons:
                 mons[mk].bind(solver)
